@@ -152,10 +152,62 @@ KNOWN = {'C19-noninlined-template-child': lambda case, v: bool(v.detail.get('tem
          'C19-expand1-rule-of-one-repetition': _known_expand1_repetition}
 
 
+# ------------------------------------------------------------------ regexp terminals next to keyword literals
+# (where the Reconstructor must decide about separating spaces: word-like, numeric and mixed tokens such as 1.5 / os.path / a-b)
+SKEL = [
+    ('start: stmt+\nstmt: "at" NUM NUM ";" | "import" PATH "as" NAME ";" | NAME "=" value ";"\n?value: NUM | NAME | PATH | value "+" NUM\n'
+     'NAME: /[a-z_]+/\nPATH: /[a-z]+(\\.[a-z]+)+/\nNUM: /[0-9]+(\\.[0-9]+)?/\n%ignore " "\n',
+     ['at N N ;', 'import P as W ;', 'W = N ;', 'W = P + N ;', 'W = W + N + N ;']),
+    ('start: item ("," item)*\n?item: "not" item -> neg | WORD | RANGE | "(" start ")"\nWORD: /[a-z]+/\nRANGE: /[a-z]-[a-z]/\n%ignore " "\n',
+     ['not W', 'R', 'not R , W', '( W , not R )', 'not not W , R , R']),
+    ('start: (pair | flag)+\npair: KEY value\nflag: "no" KEY\nvalue: NUM | "[" NUM+ "]" -> nums\nKEY: /[a-z]+[.][a-z]+|[a-z]+/\nNUM: /[0-9]+([.][0-9]+)?/\n%ignore " "\n',
+     ['K N', 'no K', 'K [ N N N ]', 'K N no K K N']),
+]
+FILL = {'N': ['1', '22', '1.5', '0.25'], 'P': ['os.path', 'a.b.c'], 'W': ['x', 'ab', 'as_', 'nota'], 'R': ['a-b', 'x-y'], 'K': ['k', 'a.b', 'no', 'key']}
+
+
+@st.composite
+def skeleton_cases(draw):
+    gi = draw(st.integers(0, len(SKEL) - 1))
+    g, tpls = SKEL[gi]
+    texts = []
+    for _ in range(5):
+        parts = []
+        for tpl in draw(st.lists(st.sampled_from(tpls), min_size=1, max_size=3)):
+            parts.append(' '.join(draw(st.sampled_from(FILL[x])) if x in FILL else x for x in tpl.split()))
+        texts.append((' , ' if gi == 1 else ' ').join(parts))
+    return {'gtext': g, 'texts': texts, 'parser': draw(st.sampled_from(['lalr', 'lalr', 'earley']))}
+
+
+def check_skeleton(case, ctx):
+    g = case['gtext']
+    p = Lark(g, parser=case['parser'], maybe_placeholders=False)
+    rec = Reconstructor(p)
+    for w in case['texts']:
+        try:
+            t = p.parse(w)
+        except UnexpectedInput:
+            ctx.label('skeleton:rejected'); continue
+        try:
+            out = rec.reconstruct(t)
+        except Exception as e:
+            raise Violation('reconstruct raised %s' % type(e).__name__, grammar=g, text=w, error=str(e)[:200])
+        try:
+            t2 = p.parse(out)
+        except UnexpectedInput as e:
+            raise Violation('reconstructed text is rejected by the parser', grammar=g, text=w, reconstructed=out, error=str(e)[:200])
+        if norm(t2) != norm(t):
+            raise Violation('reconstructed text parses to a different tree', grammar=g, text=w, reconstructed=out, original=str(norm(t))[:300], reparsed=str(norm(t2))[:300])
+        ctx.label('skeleton:roundtrip-ok')
+        if any(c in w for c in '.-'):
+            ctx.nontrivial([g, w, case['parser']], sample={'grammar': g, 'text': w, 'reconstructed': out})
+
+
 def strat():
     return gramgen.grammar_and_inputs(O, max_len=10, n=4).map(lambda c: {'g': c['g'], 'texts': c['texts']})
 
 
 def phases(tier):
     k = 12 if tier == 'thorough' else 1
-    return [Phase('roundtrip', 'hypothesis', strategy=strat(), max_examples=24000 * k)]
+    return [Phase('roundtrip', 'hypothesis', strategy=strat(), max_examples=24000 * k),
+            Phase('regexp-terminals-next-to-keywords', 'hypothesis', strategy=skeleton_cases(), max_examples=3000 * k, check=check_skeleton)]
